@@ -955,6 +955,115 @@ fn read_back(data: &[u8], img: &Img, sub: bool) -> Vec<Slot> {
     v
 }
 
+/// display form of a raw short name (`base[.ext]`, generator-side helper)
+fn display_of_raw(raw: &[u8; 11]) -> String {
+    let base = String::from_utf8_lossy(&raw[..8]).trim_end().to_string();
+    let ext = String::from_utf8_lossy(&raw[8..]).trim_end().to_string();
+    if ext.is_empty() {
+        base
+    } else {
+        format!("{}.{}", base, ext)
+    }
+}
+
+fn mixed_case(rng: &mut SplitMix64, s: &str) -> String {
+    s.chars().map(|c| if rng.chance(1, 2) { c.to_ascii_lowercase() } else { c.to_ascii_uppercase() }).collect()
+}
+
+/// an entry with the long name `long` and the raw short name `raw`
+fn long_entry(long: &str, raw: &[u8; 11], attr: u8) -> Vec<Slot> {
+    let units: Vec<u16> = long.encode_utf16().collect();
+    let mut v = gen_run(&units, sfn_chk(raw));
+    v.push(sfn_slot(raw, attr));
+    v
+}
+
+/// Engineered `create_file` cases for the alias choice (F23 and its neighbours): returns the entries to plant in front
+/// of the directory and the name to create.  The first candidates the generator would choose for the name are
+/// answered by LONG names of entries with unrelated raw short names (and/or taken as raw short names), or the name
+/// itself already exists (long-name match, alias match, or as a directory).
+fn engineered_create(rng: &mut SplitMix64, k: usize) -> (Vec<Slot>, String) {
+    let w1 = *rng.pick(&["my", "a", "ab", "long", "report", "x", "te", "data"]);
+    let w2 = *rng.pick(&["file", "st", "b", "name", "q", "set"]);
+    let ext = *rng.pick(&["txt", "", "c", "tar gz", "dat"]);
+    let name = if ext.is_empty() { format!("{} {}{}", w1, w2, k % 7) } else { format!("{} {}{}.{}", w1, w2, k % 7, ext) };
+    // the candidates in the order the generator tries them: ~1 … ~4, then the hash forms
+    let mut cands: Vec<[u8; 11]> = Vec::new();
+    for _ in 0..7 {
+        match fatfs::verif_dir::short_name_generate(&name, &cands, 3) {
+            Some((c, _)) => cands.push(c),
+            None => break,
+        }
+    }
+    let mut serial = 0_usize;
+    let mut fresh_raw = || {
+        serial += 1;
+        let mut r = *b"Q0000000   ";
+        r[1..8].copy_from_slice(format!("{:07}", serial).as_bytes());
+        r
+    };
+    let mut extra: Vec<Slot> = Vec::new();
+    let mut create = name.clone();
+    let mut by_long = |extra: &mut Vec<Slot>, rng: &mut SplitMix64, c: &[u8; 11]| {
+        let d = mixed_case(rng, &display_of_raw(c));
+        extra.extend(long_entry(&d, &fresh_raw(), 0x20));
+    };
+    let by_raw = |extra: &mut Vec<Slot>, c: &[u8; 11]| extra.push(sfn_slot(c, 0x20));
+    if cands.len() < 7 {
+        return (extra, create);
+    }
+    match rng.below(10) {
+        0 => by_long(&mut extra, rng, &cands[0]),
+        1 => {
+            by_long(&mut extra, rng, &cands[0]);
+            by_long(&mut extra, rng, &cands[1]);
+        }
+        2 => {
+            for c in &cands[..4] {
+                by_long(&mut extra, rng, c);
+            }
+        }
+        3 => {
+            for c in &cands[..4] {
+                by_raw(&mut extra, c);
+            }
+            by_long(&mut extra, rng, &cands[4]);
+        }
+        4 => {
+            by_raw(&mut extra, &cands[0]);
+            by_long(&mut extra, rng, &cands[1]);
+            by_raw(&mut extra, &cands[2]);
+        }
+        5 => {
+            // the second candidate only: no effect on the choice
+            by_long(&mut extra, rng, &cands[1]);
+        }
+        6 => {
+            for c in &cands[..4] {
+                by_long(&mut extra, rng, c);
+            }
+            by_long(&mut extra, rng, &cands[4]);
+            by_raw(&mut extra, &cands[5]);
+        }
+        7 => {
+            // the name exists already (long-name match ignoring case): create_file opens it, nothing is written
+            let l = mixed_case(rng, &name);
+            extra.extend(long_entry(&l, &fresh_raw(), 0x20));
+        }
+        8 => {
+            // the name exists already by its alias
+            by_raw(&mut extra, &cands[0]);
+            create = mixed_case(rng, &display_of_raw(&cands[0]));
+        }
+        _ => {
+            // the name exists as a DIRECTORY: InvalidInput
+            let l = mixed_case(rng, &name);
+            extra.extend(long_entry(&l, &fresh_raw(), 0x10));
+        }
+    }
+    (extra, create)
+}
+
 /// `create_file(name)` / `remove(name)` on planted directories: the slots of the whole directory before and after go
 /// into the probe line; the model answers `ok` iff `after = writeEntry before …` resp. `deleteRange before …`
 /// (`DirSlots.checkCreate` / `checkDelete`)
@@ -963,6 +1072,21 @@ fn stream_dirops(tier: Tier, rng: &mut SplitMix64, img: &mut Img, out: &mut dyn 
     for k in 0..n {
         let mut slots = plain_dir(rng);
         let sub = k % 2 == 1;
+        // about a quarter of the create cases: engineered alias collisions / existing names
+        let mut engineered: Option<String> = None;
+        if k % 3 != 0 && rng.chance(3, 8) && slots.len() <= 40 {
+            let (extra, name) = engineered_create(rng, k);
+            if !extra.is_empty() {
+                if rng.chance(1, 2) {
+                    let mut v = extra;
+                    v.extend_from_slice(&slots);
+                    slots = v;
+                } else {
+                    slots.extend_from_slice(&extra);
+                }
+                engineered = Some(name);
+            }
+        }
         // sometimes fill the allocated space exactly / leave a trailing deleted run before the end marker
         if rng.chance(1, 4) {
             let mut d = sfn_slot(b"ZZZZZZZZ   ", 0x20);
@@ -1011,7 +1135,9 @@ fn stream_dirops(tier: Tier, rng: &mut SplitMix64, img: &mut Img, out: &mut dyn 
                 0 => *rng.pick(&[1_usize, 12, 13, 14, 26, 27]),
                 _ => rng.range(1, 45) as usize,
             };
-            let name: String = if rng.chance(1, 5) {
+            let name: String = if let Some(n) = engineered.clone() {
+                n
+            } else if rng.chance(1, 5) {
                 format!("NEW{:04}.TXT", k % 10000)
             } else {
                 (0..len).map(|i| if i % 7 == 3 { 'é' } else { (b'g' + ((i + k) % 13) as u8) as char }).collect()
